@@ -171,3 +171,194 @@ Example C20_nonvacuous_percentile :
   median Q_ops [4; 1; 3; 2]%Q = ((2 + 3) / 2)%Q /\
   (0 <= 480 <= 1600 /\ 1 <= 5 <= 512).
 Proof. vm_compute. repeat split; try reflexivity; discriminate. Qed.
+
+(* ========================================================================================================== *)
+(* Extension: the binary64 position through Flocq (C20_FloatDefs / C20_Float), replacing the finite sweep      *)
+(* ========================================================================================================== *)
+(* FR x = the real number a finite double denotes (Flocq's B2R of Prim2B), RN = rounding to nearest-even in
+   binary64 (FLT_exp (-1074) 53, unbounded above: overflow is excluded separately), real_quot a b = a / b in R,
+   real_position P n = RN (RN (P * (n-1)) / 100).  pos_side_ok k j n = 0 <= k, 0 <= j <= 1015, 1 <= n,
+   n - 1 < 2^53, k (n-1) < 2^53. *)
+From LNGen Require Import Src_pctpos.
+From LN Require Import C20_FloatDefs C20_Float.
+
+(* EVERY dyadic percentage p = k / 2^j and EVERY size n with k (n-1) < 2^53 (j <= 1015 excludes underflow of the
+   quotient): the product p * double(n-1) is exact, the quotient by 100.0 is the correctly rounded exact quotient,
+   and floor / ceil of the rounded quotient are floor / ceil of the exact rational position k (n-1) / (100 2^j);
+   the two indices coincide exactly when the exact position is an integer *)
+Theorem C20_position_exact : forall (p : PrimFloat.float) (k j n : Z),
+  SFvalue_is (FloatOps.Prim2SF p) k (2 ^ j) = true -> pos_side_ok k j n = true ->
+  FR (PrimFloat.mul p (Z2F (n - 1))) = real_quot (k * (n - 1)) (2 ^ j) /\
+  FR (pct_position p n) = RN (real_quot (k * (n - 1)) (100 * 2 ^ j)) /\
+  PrimFloat.is_finite (pct_position p n) = true /\
+  pct_lpos p n = (k * (n - 1)) / (100 * 2 ^ j) /\
+  pct_rpos p n = - ((- (k * (n - 1))) / (100 * 2 ^ j)) /\
+  (pct_lpos p n = pct_rpos p n <-> (k * (n - 1)) mod (100 * 2 ^ j) = 0) /\
+  pct_rpos p n <= pct_lpos p n + 1.
+Proof. exact s_position_exact. Qed.
+Print Assumptions C20_position_exact.
+
+(* the same in the executable form the driver evaluates on every POS line of the run *)
+Theorem C20_pos_reference : forall (p : PrimFloat.float) (n l r : Z), pos_reference p n = Some (l, r) ->
+  pct_lpos_src p n = l /\ pct_rpos_src p n = r /\
+  exists k j, SFvalue_is (FloatOps.Prim2SF p) k (2 ^ j) = true /\ pos_side_ok k j n = true /\
+              l = (k * (n - 1)) / (100 * 2 ^ j) /\ r = - ((- (k * (n - 1))) / (100 * 2 ^ j)).
+Proof. exact s_pos_reference. Qed.
+Print Assumptions C20_pos_reference.
+
+(* hence, for all such inputs, the percentile IS the sorted-array reference of the property (any length, any
+   scalar type with a total preorder); the sorted variant agrees *)
+Theorem C20_percentile_exact : forall T (Op : ops T), order_ok Op ->
+  forall (l : list T) (p : PrimFloat.float) (k j : Z),
+  SFvalue_is (FloatOps.Prim2SF p) k (2 ^ j) = true -> pos_side_ok k j (Z.of_nat (length l)) = true ->
+  let s := sort Op l in
+  let a := k * (Z.of_nat (length l) - 1) in
+  let D := 100 * 2 ^ j in
+  percentile Op l p =
+    (if a mod D =? 0 then nthZ Op s (a / D) else midpoint Op (nthZ Op s (a / D)) (nthZ Op s (a / D + 1))) /\
+  (StronglySorted (le Op) l -> percentile_sorted Op l p = percentile Op l p).
+Proof. exact s_percentile_exact. Qed.
+Print Assumptions C20_percentile_exact.
+
+(* the median for every length below 2^47 (C20_median: up to 4096, by enumeration) *)
+Theorem C20_median_all : forall T (Op : ops T), order_ok Op -> forall (l : list T),
+  (1 <= length l)%nat -> Z.of_nat (length l) - 1 < 2 ^ 47 ->
+  let s := sort Op l in
+  let n := Z.of_nat (length l) in
+  median Op l =
+  if Z.odd n then nthZ Op s ((n - 1) / 2)
+  else midpoint Op (nthZ Op s (n / 2 - 1)) (nthZ Op s (n / 2)).
+Proof. exact s_median_all. Qed.
+Print Assumptions C20_median_all.
+
+(* what IS true for every double in [0, 100] (decimal percentages such as 8.8 included; 8.8 is not 8.8): the position
+   follows the binary64 value of p -- it is the twice rounded real expression in FR p --, both indices stay inside
+   the array (no out-of-range access) and are neighbours *)
+Theorem C20_position_any : forall (p : PrimFloat.float) (n : Z),
+  pct_in_range p = true -> 1 <= n -> n - 1 <= 2 ^ 46 ->
+  PrimFloat.is_finite (pct_position p n) = true /\
+  FR (pct_position p n) = real_position (FR p) n /\
+  pct_lpos p n = Raux.Zfloor (FR (pct_position p n)) /\ pct_rpos p n = Raux.Zceil (FR (pct_position p n)) /\
+  0 <= pct_lpos p n <= pct_rpos p n /\ pct_rpos p n <= n - 1 /\ pct_rpos p n <= pct_lpos p n + 1.
+Proof. exact s_position_any. Qed.
+Print Assumptions C20_position_any.
+
+(* ... and the indices are monotone in the percentage *)
+Theorem C20_position_monotone : forall (p p' : PrimFloat.float) (n : Z),
+  pct_in_range p = true -> pct_in_range p' = true -> pct_le p p' = true -> 1 <= n -> n - 1 <= 2 ^ 46 ->
+  pct_lpos p n <= pct_lpos p' n /\ pct_rpos p n <= pct_rpos p' n.
+Proof. exact s_position_monotone. Qed.
+Print Assumptions C20_position_monotone.
+
+(* the midpoint in binary64 as the REPAIRED source computes it (/repo 985fdb5: `sum = lvalue + rvalue;
+   isfinite(sum) ? sum / 2 : lvalue / 2 + rvalue / 2`; replaces the first version of this theorem, which needed the
+   hypothesis that a + b does not overflow): for ALL finite a <= b the result is finite and lies in [a, b]; when a + b is
+   finite it is the pre-repair value fl(fl(a + b) / 2); when a + b overflows it is fl(a/2 + b/2) = the correctly rounded
+   exact midpoint RN((a + b) / 2) (both operands then have magnitude >= 2^970, so halving them is exact) *)
+Theorem C20_midpoint : forall a b : PrimFloat.float,
+  midpoint float_ops a b = fmid a b /\
+  (PrimFloat.is_finite a = true -> PrimFloat.is_finite b = true -> PrimFloat.leb a b = true ->
+   PrimFloat.is_finite (fmid a b) = true /\ PrimFloat.leb a (fmid a b) = true /\ PrimFloat.leb (fmid a b) b = true /\
+   (PrimFloat.is_finite (PrimFloat.add a b) = true ->
+      fmid a b = fmid_prefix a b /\
+      FR (fmid a b) = RN (Rdefinitions.Rdiv (RN (Rdefinitions.Rplus (FR a) (FR b))) (Rdefinitions.IZR 2))) /\
+   (PrimFloat.is_finite (PrimFloat.add a b) = false ->
+      fmid a b = PrimFloat.add (PrimFloat.div a (Z2F 2)) (PrimFloat.div b (Z2F 2)) /\
+      FR (fmid a b) = RN (Rdefinitions.Rdiv (Rdefinitions.Rplus (FR a) (FR b)) (Rdefinitions.IZR 2)))).
+Proof. exact s_midpoint. Qed.
+Print Assumptions C20_midpoint.
+
+(* history: the pre-repair expression `(lvalue + rvalue) / 2` is false of the clause "a <= midpoint <= b": the largest
+   double twice gave +infinity (percentile_sorted({DBL_MAX, DBL_MAX}, 50) = inf); the repaired code returns DBL_MAX *)
+Theorem C20_midpoint_prefix_refuted : exists a b : PrimFloat.float,
+  PrimFloat.is_finite a = true /\ PrimFloat.is_finite b = true /\ PrimFloat.leb a b = true /\
+  fmid_prefix a b = PrimFloat.infinity /\ PrimFloat.leb (fmid_prefix a b) b = false /\
+  fmid a b = a.
+Proof. exact s_midpoint_prefix_refuted. Qed.
+Print Assumptions C20_midpoint_prefix_refuted.
+
+(* exact instances: `isfinite` is constantly true there (every integer / rational is finite), and for the rationals the
+   two branches denote the same number anyway -- C20_percentile_exact / C20_median_all / C20_exact_mean are unaffected *)
+Theorem C20_mid_branches_Q : forall (a b : Q) (t : bool), (mid_shape Q_ops t a b == (a + b) / 2)%Q.
+Proof. exact s_mid_branches_Q. Qed.
+Print Assumptions C20_mid_branches_Q.
+
+(* the translated expressions of group pctpos mean what the model assumes.  Position: for every integer percentage
+   the source's position expression with the double conversions erased IS the left index (a re-associated expression
+   such as percentage / 100.0 * (size - 1) still translates and breaks this theorem) *)
+Theorem C20_kernel_position : forall k n, 0 <= k <= 100 -> 1 <= n -> n - 1 <= 2 ^ 46 ->
+  pct_lpos_src (Z2F k) n = src_pct_pos_int k n /\
+  pct_rpos_src (Z2F k) n = src_pct_pos_int k n + (if Z.rem (k * (n - 1)) 100 =? 0 then 0 else 1).
+Proof. exact s_kernel_position. Qed.
+Print Assumptions C20_kernel_position.
+
+(* indices: lpos is the cast of floor(position), rpos the cast of ceil(position) (not lpos + 1); the midpoint kernels
+   (`lvalue + rvalue`; `std::isfinite(sum) ? (sum / 2) : (lvalue / 2 + rvalue / 2)` with the test as a boolean) are
+   [mid_shape] of the integer instance, and [midpoint] of every instance is [mid_shape] on the instance's own
+   finiteness test of the sum -- reverting the repair (or writing l + (r - l) / 2) breaks the anchor or this theorem *)
+Theorem C20_kernel_indices : forall (p : PrimFloat.float) (n f c l a b : Z) (t : bool),
+  src_pct_lpos f c = f /\ src_pct_rpos f c l = c /\
+  pct_lpos_src p n = pct_lpos p n /\ pct_rpos_src p n = pct_rpos p n /\
+  src_pct_mid a b (src_pct_sum a b) t = mid_shape Z_ops t a b /\
+  (forall T (Op : ops T) (x y : T), midpoint Op x y = mid_shape Op (fin Op (add Op x y)) x y) /\
+  midpoint Z_ops a b = Z.quot (a + b) 2 /\ fin Z_ops (a + b) = true /\ (forall q : Q, fin Q_ops q = true).
+Proof. exact s_kernel_indices. Qed.
+Print Assumptions C20_kernel_indices.
+
+(* detail::percentile with a lazily generated array (the POS stage of the harness) is percentile_sorted *)
+Theorem C20_percentile_fn : forall T (Op : ops T) (s : list T) (p : PrimFloat.float),
+  percentile_fn Op (nthZ Op s) (Z.of_nat (length s)) p = percentile_sorted Op s p.
+Proof. exact s_percentile_fn. Qed.
+Print Assumptions C20_percentile_fn.
+
+(* --- refuted (false of the faithful model, with witnesses) ------------------------------------------------ *)
+(* the conjecture of the first round, C20_position_exact_full_statement, is false: p = 74151217 / 2^20, n = 1983666872 *)
+Theorem C20_position_exact_full_refuted : ~ C20_position_exact_full_statement.
+Proof. exact s_position_full_refuted. Qed.
+Print Assumptions C20_position_exact_full_refuted.
+
+(* beyond k (n-1) < 2^53 the right index can be wrong already for four values: p = fl(100/3), k (n-1) < 2^54 *)
+Theorem C20_position_beyond_refuted : exists (p : PrimFloat.float) (k j n : Z),
+  SFvalue_is (FloatOps.Prim2SF p) k (2 ^ j) = true /\ 0 <= k <= 100 * 2 ^ j /\ 0 <= j <= 1015 /\ 1 <= n <= 4 /\
+  k * (n - 1) < 2 ^ 54 /\
+  pct_lpos p n = ref_lpos k j n /\ pct_rpos p n <> ref_rpos k j n.
+Proof. exact s_position_beyond_refuted. Qed.
+Print Assumptions C20_position_beyond_refuted.
+
+(* without j <= 1015 the quotient can underflow to 0: p = 2^-1074, two values *)
+Theorem C20_position_underflow_refuted : exists (p : PrimFloat.float) (k j n : Z),
+  SFvalue_is (FloatOps.Prim2SF p) k (2 ^ j) = true /\ 0 <= k <= 100 * 2 ^ j /\ 0 <= j <= 1074 /\ n = 2 /\
+  k * (n - 1) < 2 ^ 53 /\
+  pct_rpos p n = 0 /\ ref_rpos k j n = 1.
+Proof. exact s_position_underflow_refuted. Qed.
+Print Assumptions C20_position_underflow_refuted.
+
+(* --- non-vacuity of the new hypotheses ---------------------------------------------------------------------- *)
+(* 12.5% of 2^30 + 1 values: position 2^27 exactly; 37.5% of 6 values: between 1 and 2; both inside the side
+   condition; pos_reference answers; integer percentage 30 with 11 values: position 3 *)
+Example C20_nonvacuous_position :
+  SFvalue_is (FloatOps.Prim2SF (grid_p 200)) 25 (2 ^ 1) = true /\ pos_side_ok 25 1 (2 ^ 30 + 1) = true /\
+  pct_lpos (grid_p 200) (2 ^ 30 + 1) = 2 ^ 27 /\ pct_rpos (grid_p 200) (2 ^ 30 + 1) = 2 ^ 27 /\
+  pos_reference (grid_p 600) 6 = Some (1, 2) /\
+  pct_in_range (grid_p 600) = true /\ pct_le (grid_p 200) (grid_p 600) = true /\
+  (0 <= 30 <= 100 /\ 1 <= 11 /\ 11 - 1 <= 2 ^ 46) /\ src_pct_pos_int 30 11 = 3 /\
+  percentile_iota 6 (grid_p 600) = fmid (Z2F 1) (Z2F 2).
+Proof. vm_compute. repeat split; try reflexivity; discriminate. Qed.
+
+(* a list of 5 rationals with the dyadic percentage 37.5: position 1.5; the median of 6 values *)
+Example C20_nonvacuous_percentile_exact :
+  SFvalue_is (FloatOps.Prim2SF (grid_p 600)) 75 (2 ^ 1) = true /\ pos_side_ok 75 1 5 = true /\
+  percentile Q_ops [9; 1; 7; 3; 5]%Q (grid_p 600) = ((3 + 5) / 2)%Q /\
+  median Q_ops [6; 4; 1; 3; 2; 5]%Q = ((3 + 4) / 2)%Q /\ (1 <= 6)%nat /\ 6 - 1 < 2 ^ 47.
+Proof. repeat split; try (vm_compute; reflexivity); repeat constructor. Qed.
+
+(* midpoint: finite a <= b with a finite sum, and an overflowing pair (a = b = the largest double: now returned as is) *)
+Example C20_nonvacuous_midpoint :
+  PrimFloat.is_finite (Z2F 3) = true /\ PrimFloat.leb (Z2F 3) (Z2F 8) = true /\
+  PrimFloat.is_finite (PrimFloat.add (Z2F 3) (Z2F 8)) = true /\ fmid (Z2F 3) (Z2F 8) = PrimFloat.div (Z2F 11) (Z2F 2) /\
+  (let m := PrimFloat.next_down PrimFloat.infinity in
+   PrimFloat.is_finite m = true /\ PrimFloat.leb m m = true /\ PrimFloat.is_finite (PrimFloat.add m m) = false /\
+   fmid m m = m /\ fmid_prefix m m = PrimFloat.infinity /\
+   PrimFloat.leb (PrimFloat.opp m) (fmid (PrimFloat.opp m) (PrimFloat.opp (PrimFloat.next_down m))) = true /\
+   PrimFloat.leb (fmid (PrimFloat.opp m) (PrimFloat.opp (PrimFloat.next_down m))) (PrimFloat.opp (PrimFloat.next_down m)) = true).
+Proof. vm_compute. repeat split; reflexivity. Qed.
